@@ -34,9 +34,10 @@ def truncate_ell(self, new_ell_max):
     the input is larger than that, the object is returned unchanged.
 
     """
+    from .. import LM_index
     if new_ell_max >= self.ell_max:
         return self
-    truncated = self[..., :self.index(new_ell_max, new_ell_max)+1]
+    truncated = self[..., :LM_index(new_ell_max, new_ell_max, self.ell_min)+1]
     truncated._metadata['ell_max'] = new_ell_max
     return truncated
 
